@@ -310,6 +310,9 @@ add("C07",
 
 # ---------------------------------------------------------------- C13
 add("C13",
+    V("detector-guard-de-morgan-slip", "C13", [(DATE, '        if self.detect_languages_function and not self.languages and not self.locales:', "        if self.detect_languages_function and not (self.languages and self.locales):")], "fire", "C13.R4",
+      note="seeded change C13-4: languages=['fr'] plus a detector that answers 'en' parses with English"),
+    V("twin-detector-guard-factored", "C13", [(DATE, '        if self.detect_languages_function and not self.languages and not self.locales:', "        if self.detect_languages_function and not (self.languages or self.locales):")], "silent"),
     V("defaults-before-requested", "C13", [(DATE, "        for locale in self._get_locale_loader().get_locales(\n            languages=self.languages,", "        if self._settings.DEFAULT_LANGUAGES:\n            for locale in self._get_locale_loader().get_locales(\n                languages=self._settings.DEFAULT_LANGUAGES,\n                locales=None,\n                region=self.region,\n                use_given_order=self.use_given_order,\n            ):\n                yield locale\n\n        for locale in self._get_locale_loader().get_locales(\n            languages=self.languages,")], "fire", "C13.R1"),
     V("region-not-forwarded", "C13", [(DATE, "            languages=self.languages,\n            locales=self.locales,\n            region=self.region,", "            languages=self.languages,\n            locales=self.locales,\n            region=None,")], "fire", "C13.R1"),
     V("reported-locale-is-language", "C13", [(DATE, '                parsed_date["locale"] = locale.shortname', '                parsed_date["locale"] = locale.info["name"]')], "fire", "C13.R2"),
